@@ -65,8 +65,12 @@ func (f *Filter) IsAllowed(res Resource) bool {
 		// typ string
 	)
 
-	if _, ok := res.Attrs()[f.Field]; ok {
+	if attr, ok := res.Attrs()[f.Field]; ok {
 		val = res.Get(f.Field)
+		if val == nil {
+			// A wrapped struct returns an untyped nil for a nil pointer.
+			val = GetZeroValue(attr.Type, attr.Nullable)
+		}
 	}
 
 	if rel, ok := res.Rels()[f.Field]; ok {
